@@ -8,7 +8,7 @@ def flo_worker(ctx, job, feats, monitor_fns, refcompare=True, nontrivial=None, s
     from vf.flo import runner, monitors, refint, compare
     for seed, fi in job["items"]:
         rng = random.Random(seed)
-        prog = gen.gen_program(rng, gen.feat(**feats[fi]))
+        prog = gen.gen_program(rng, gen.pickfeat(feats, fi))
         if mutate:
             mutate(rng, prog)
         text = P.render(prog)
@@ -49,7 +49,7 @@ def flo_worker(ctx, job, feats, monitor_fns, refcompare=True, nontrivial=None, s
 
 def flo_run(ctx, feats, nquick, nthorough, floors):
     n = ctx.pick(nquick, nthorough)
-    items = [(ctx.rng.randrange(1 << 30), i % len(feats)) for i in range(n)]
+    items = [(ctx.rng.randrange(1 << 30), i % gen.nfeats(feats, ctx)) for i in range(n)]
     ctx.shard([{"items": items[i::16]} for i in range(16)], timeout=ctx.pick(300, 1500))
     for k, v in floors.items():
         ctx.floor(k, v)
